@@ -146,7 +146,7 @@ func (f *Func) redefineInputs(opts ...Arg) (reflect.Type, error) {
 		switch v := v.(type) {
 		case *funcVertex:
 			// Copy the func since we're going to modify a field in it.
-			fCopy := *v.Func
+			fCopy := v.Func.copy()
 			v.Func = &fCopy
 
 			// Modify the function to be a zero producing function.
